@@ -441,6 +441,7 @@ def asan_summary(err):
 # changed signature) and a covered entry one of whose counters is 0.
 T_ACC = ["at_ok_iff", "iteration_exact", "owning_wrapper_observations_valid", "facts_match"]
 T_INV = ["array_inv", "invariant_preserved"]
+T_LOC = ["accessor_returns_source_cell", "view_location", "held_reference_follows_source"]
 COVER = {
     "bases AbstractArray : -": (T_INV, ["obs"]),
     "bases ArrayView : public AbstractArray<T>": (T_INV, ["obs:V"]),
@@ -453,16 +454,16 @@ COVER = {
     "AbstractArray::AbstractArray : void (const AbstractArray<T> &) noexcept [implicit,=default]": (["owned_survives_copy", "facts_match"], ["cc:V", "cc:F", "cc:W"]),
     "AbstractArray::operator= : AbstractArray<T> &(const AbstractArray<T> &) noexcept [implicit,=default]": (["invariant_preserved", "facts_match"], ["ca:V", "ca:F", "ca:W"]),
     "AbstractArray::~AbstractArray : void () noexcept [virtual,=default]": (["no_leak", "refcounts_exact"], ["del:V", "del:O", "del:W", "ct"]),
-    "AbstractArray::at : T &(size_t) const": (T_ACC, ["obs"]),
-    "AbstractArray::begin : T *() const": (T_ACC, ["obs"]),
-    "AbstractArray::end : T *() const": (T_ACC, ["obs"]),
-    "AbstractArray::cbegin : const T *() const": (T_ACC, ["obs"]),
-    "AbstractArray::cend : const T *() const": (T_ACC, ["obs"]),
-    "AbstractArray::data : T *() const": (T_ACC, ["obs"]),
+    "AbstractArray::at : T &(size_t) const": (T_ACC + T_LOC, ["obs", "addr"]),
+    "AbstractArray::begin : T *() const": (T_ACC + T_LOC, ["obs", "addr"]),
+    "AbstractArray::end : T *() const": (T_ACC + T_LOC, ["obs", "addr"]),
+    "AbstractArray::cbegin : const T *() const": (T_ACC + T_LOC, ["obs", "addr"]),
+    "AbstractArray::cend : const T *() const": (T_ACC + T_LOC, ["obs", "addr"]),
+    "AbstractArray::data : T *() const": (T_ACC + T_LOC, ["obs", "addr"]),
     "AbstractArray::size : size_t () const": (T_ACC, ["obs"]),
-    "AbstractArray::operator[] : T &(size_t) const": (T_ACC, ["obs", "w:O", "w:F", "w:V", "w:W"]),
+    "AbstractArray::operator[] : T &(size_t) const": (T_ACC + T_LOC, ["obs", "addr", "w:O", "w:F", "w:V", "w:W"]),
     "AbstractArray::operator bool : bool () const": (T_ACC, ["obs"]),
-    "AbstractArray::operator T * : T *() const": (T_ACC, ["obs"]),
+    "AbstractArray::operator T * : T *() const": (T_ACC + T_LOC, ["obs", "addr"]),
     "AbstractArray::setPtr : void (T *, size_t) [protected]": (["array_inv", "facts_match"], ["facts", "src:V:vec", "resize:O", "fixn:F", "fview:W"]),
     "field AbstractArray::ptr : T * [private]": (["array_inv", "facts_match"], ["facts", "obs"]),
     "field AbstractArray::numItems : size_t [private]": (["array_inv", "facts_match"], ["facts", "obs"]),
@@ -520,7 +521,7 @@ COVER = {
     "DataView::DataView : void () [=default]": (["dataview_offset"], ["D"]),
     "DataView::DataView : void (const void *, size_t)": (["dataview_offset", "facts_match"], ["D:stride", "D:default_stride", "D:raw", "D:vec", "D:own"]),
     "DataView::reset : void (const void *, size_t)": (["dataview_offset", "facts_match"], ["D:stride", "D:default_stride"]),
-    "DataView::operator[] : const T &(size_t) const": (["dataview_offset", "facts_match"], ["D", "D:overlap", "D:stride0"]),
+    "DataView::operator[] : const T &(size_t) const": (["dataview_offset", "dataview_returns_source_cell", "facts_match"], ["D", "addr:D", "D:overlap", "D:stride0"]),
     "DataView::~DataView : void () [=default]": (["(trivial: owns nothing)"], ["D"]),
     "field DataView::ptr : const rkcommon::byte_t * [protected]": (["dataview_offset", "facts_match"], ["facts", "D"]),
     "field DataView::stride : size_t [protected]": (["dataview_offset", "facts_match"], ["facts", "D:stride"]),
@@ -545,6 +546,7 @@ def exec_counters(cases, mlines, facts_ok, built):
             sz, stride = int(t[1]), int(t[3])
             nb = 0 if t[4] == "-" else t[4].count(",") + 1
             bump("D")
+            if ml.replace("oob", "").strip(): bump("addr:D")
             bump("D:default_stride" if stride == sz else "D:stride")
             bump(("D:raw", "D:vec", "D:own")[nb % 3])
             if stride == 0: bump("D:stride0")
@@ -559,12 +561,16 @@ def exec_counters(cases, mlines, facts_ok, built):
             for sl in slots:
                 if sl != "-":
                     bump("obs"); bump("obs:" + sl[0])
+                    if "[stale]" not in sl and "[]" not in sl:
+                        bump("addr")
             if f[0] == "sset" and st.startswith("ok|"):
                 isarr[f[1]] = (f[2] == "a" and (0 if f[3] == "-" else f[3].count(",") + 1) <= 6)
             if st.startswith("ok|") and f[0] not in ("sset", "skill", "swrite"):
                 i = int(f[1])
                 kl = (prev if f[0] == "del" and prev else slots)[i][:1]
                 bump("%s:%s" % (f[0], kl))
+                if f[0] in ("asrc", "ca", "ma"):
+                    bump("ret:" + kl)
                 if f[0] in ("src", "asrc"):
                     k = f[3] if f[0] == "src" else f[2]
                     bump("%s:%s:%s" % (f[0], kl, "arr" if isarr.get(k) else "vec"))
@@ -613,6 +619,46 @@ ALIAS_NA = {
     "shared_ptr_ref": "the only shared_ptr<FixedArray> a view holds is private; the viewed FixedArray is re-assigned / destroyed under the view (asrc, ca, del)",
     "other_ptr": "DataView owns nothing; overlapping and zero strides are generated",
 }
+
+
+# every member that RETURNS a reference or a pointer (derived from the extracted signatures on every run) -> the
+# counter of the address-identity / held-reference / write-through checks the harness performs on it
+# ("addr": non-stale observations of a non-empty wrapper: &a[i] == &a.at(i) == data()+i for all i, begin/end/cbegin/cend
+#  relative to data(), data() of a view == source data()+off, two references and the iterators held across further accessor
+#  calls, a write to the underlying cell seen through the held reference;  "addr:D": DataView cases: &dv[i] == base + i*stride,
+#  two references held at once, source bytes flipped under a held reference;  "ret:<K>": operator= returned *this)
+REFRET = {
+    ("AbstractArray", "operator[]"): ["addr"], ("AbstractArray", "at"): ["addr"], ("AbstractArray", "data"): ["addr"],
+    ("AbstractArray", "begin"): ["addr"], ("AbstractArray", "end"): ["addr"], ("AbstractArray", "cbegin"): ["addr"],
+    ("AbstractArray", "cend"): ["addr"], ("AbstractArray", "operator T *"): ["addr"],
+    ("DataView", "operator[]"): ["addr:D"],
+    ("ArrayView", "operator="): ["ret:V"], ("OwnedArray", "operator="): ["ret:O"], ("FixedArray", "operator="): ["ret:F"],
+    ("FixedArrayView", "operator="): ["ret:W"], ("AbstractArray", "operator="): ["ret:V", "ret:F", "ret:W"],
+}
+
+
+def refret_coverage(ctx, sigs, cnt):
+    out, seen = [], set()
+    for sg in sigs:
+        rk = sg.get("return_kind", "value")
+        if rk == "value":
+            continue
+        name = "operator T *" if sg["member"].startswith("operator ") and sg["member"].endswith("*") else sg["member"]
+        key = (sg["class"], name)
+        if key in seen:
+            continue
+        seen.add(key)
+        ent = {"member": "%s::%s" % key, "returns": sg.get("returns"), "kind": rk}
+        ctrs = REFRET.get(key)
+        if ctrs is None:
+            ent["UNCOVERED"] = "a member returning a reference / pointer without an address-identity check"
+            ctx.broken.append("reference/pointer-returning member without an address-identity check: %s::%s returns %s" % (key[0], key[1], sg.get("returns")))
+        else:
+            ent["checks_executed"] = {k: cnt.get(k, 0) for k in ctrs}
+            if any(v == 0 for v in ent["checks_executed"].values()):
+                ctx.broken.append("address-identity checks of %s::%s were not executed in this run" % key)
+        out.append(ent)
+    return out
 
 
 def alias_coverage(ctx, sigs, alias_exec):
@@ -734,7 +780,9 @@ def run(ctx):
             ctx.nontriv(c)
     for c in dcases:
         ctx.nontriv(c)
-    ctx.cov["inventory"] = inventory_check(ctx, facts.get("inventory") or [], exec_counters(cases, mlines, facts_ok, True))
+    xcnt = exec_counters(cases, mlines, facts_ok, True)
+    ctx.cov["inventory"] = inventory_check(ctx, facts.get("inventory") or [], xcnt)
+    ctx.cov["reference_returning_members"] = refret_coverage(ctx, facts.get("signatures") or [], xcnt)
     ctx.cov["op_histogram"] = hist
     ctx.cov["aliasing_variants_per_member_parameter"] = alias_coverage(ctx, facts.get("signatures") or [], alias_exec)
     ctx.cov["wrapper_kinds_in_final_states"] = kinds
